@@ -83,7 +83,7 @@ def build(setname, a, _call, add):
         B = _hj_body(['2.00', '2.05'], [('bar', None), ('x', 'P'), ('o', 'P'), ('p', 'Q'), ('r', 'R'), ('bar', None), ('o', 'Q'), ('x', 'P'), ('x', 'P'), ('x', 'P')])
         C = _hj_body(['2.1', '2.2', '2.1'], [('bar', None), ('o', 'A'), ('o', 'B'), ('bar', None), ('x', 'A'), ('x', 'A'), ('x', 'A'), ('x', 'B'), ('x', 'B'), ('x', 'B'),
                                           ('bar', None), ('o', 'A'), ('o', 'B')], as_float=True)
-        add('P02 two competitions, one with a jump-off', [], [A, B], bound=(1, 2))
+        add('P02 two competitions, one with a jump-off', [], [A, B], bound=(1, 1))
         add('P02 two jump-offs (Decimal and float bars)', [], [A, C], bound=(1, 1))
     else:
         raise common.HarnessError('unknown scenario set %r' % setname)
